@@ -156,9 +156,11 @@ struct PrivateConfig
     CountingProblemListener pl;
     CountingTraceListener tl;
     CountingHandlers h;
-    explicit PrivateConfig(const std::string& t) : tag(t), fn(t) {}
+    bool validate;
+    explicit PrivateConfig(const std::string& t, bool v = false) : tag(t), fn(t), validate(v) {}
     void apply(XalanTransformer& x)
     {
+        x.setUseValidation(validate);      // private too: odd threads validate what they parse themselves, even ones do not
         x.installExternalFunction(XalanDOMString(EXT_NS), XalanDOMString("tag"), fn);
         x.setStylesheetParam(XalanDOMString("par"), XalanDOMString(("'" + tag + "'").c_str()));
         x.setProblemListener(&pl);
@@ -357,11 +359,13 @@ int main(int argc, char** argv)
                 const size_t nj = jobs.size();
 
                 // 1. sequential reference on private objects: own transformer, own compile, own parse per job
-                std::vector<Result> ref;
+                std::vector<Result> refN, refV;     // refV: the reference of a transformer with setUseValidation(true) (+cfg runs)
+                for (int pass = 0; pass < (cfgRun ? 2 : 1); ++pass)
                 for (const Job& j : jobs)
                 {
+                    std::vector<Result>& ref = (pass == 0 ? refN : refV);
                     XalanTransformer t; t.setWarningStream(0);
-                    PrivateConfig refCfg("@@T-ref@@");
+                    PrivateConfig refCfg("@@T-ref@@", pass == 1);
                     Sheet sh; sh.path = sheetSpecs[j.sheet].path;
                     Source so; std::string err;
                     bool ok = t.compileStylesheet(XSLTInputSource(sh.path.c_str()), sh.compiled) == 0 && makeSource(t, sourceSpecs[j.src], so, err);
@@ -404,7 +408,8 @@ int main(int argc, char** argv)
                         // all tags have the same length as the reference tag "@@T-ref@@": a transformation that ends in an
                         // error leaves whatever the 512-byte output buffer had flushed, so lengths must not differ
                         char tagText[16]; snprintf(tagText, sizeof tagText, "@@T-%03d@@", ti % 1000);
-                        PrivateConfig cfg(tagText);
+                        PrivateConfig cfg(tagText, cfgRun && (ti % 2 == 1));
+                        const std::vector<Result>& ref = cfg.validate ? refV : refN;
                         if (cfgRun) cfg.apply(t);
                         uint64_t x = (uint64_t(seed) + 1) * 0x9E3779B97F4A7C15ull + uint64_t(ti + 1) * 0xBF58476D1CE4E5B9ull;
                         barrier.wait();
@@ -445,6 +450,7 @@ int main(int argc, char** argv)
                 std::ostringstream o;
                 o << "run " << label << " jobs=" << nj;
                 (void) cfgRun;
+                const std::vector<Result>& ref = refN;
                 for (size_t k = 0; k < nj; ++k)
                     o << " " << jobs[k].text << "=" << ref[k].rc << ":" << std::hex << ref[k].h << std::dec << ":" << ref[k].len << ":" << equal[k] << "/" << total[k];
                 o << firstDiff;
